@@ -577,19 +577,37 @@ func c15Anchors(ctx *core.Ctx) {
 	type fn struct {
 		file, start string
 		anchors     []string
+		counts      map[string]int // statements that must occur exactly this often in the function
 	}
 	fns := []fn{
-		{"page.go", "func AsyncPages(", []string{"read := make(chan asyncPage)", "seek := make(chan asyncSeek, 1)", "init := make(chan struct{})", "done := make(chan struct{})", "go readPages(pages, read, seek, init, done)"}},
-		{"page.go", "func (pages *asyncPages) Close()", []string{"close(pages.init)", "close(pages.done)", "for p := range pages.read {", "Release(p.page)", "err = p.err", "pages.seek = nil"}},
-		{"page.go", "func (pages *asyncPages) ReadPage()", []string{"pages.start()", "p, ok := <-pages.read", "if !ok {", "return nil, io.EOF", "if p.version == pages.version {", "return p.page, p.err", "Release(p.page)"}},
-		{"page.go", "func (pages *asyncPages) SeekToRow(", []string{"if pages.seek == nil {", "return io.ErrClosedPipe", "select {", "case <-pages.seek:", "default:", "pages.version++", "pages.seek <- asyncSeek{rowIndex: rowIndex, version: pages.version}", "pages.start()"}},
-		{"page.go", "func readPages(", []string{"read <- asyncPage{err: pages.Close(), version: -1}", "close(read)", "case <-init:", "case <-done:", "return", "var seekTo asyncSeek", "case seekTo = <-seek:", "default:", "seekTo.rowIndex = -1", "var err error", "for {", "if !isFatalError(err) {", "if seekTo.rowIndex >= 0 {", "err = pages.SeekToRow(seekTo.rowIndex)", "if err == nil {", "seekTo.rowIndex = -1", "continue", "page, err = pages.ReadPage()", "case read <- asyncPage{", "version: seekTo.version,", "case seekTo = <-seek:", "Release(page)", "case <-done:", "Release(page)", "return"}},
-		{"page.go", "func isFatalError(", []string{"err != nil && err != io.EOF && !errors.Is(err, ErrSeekOutOfRange)"}},
-		{"file.go", "func (c *FileColumnChunk) readColumnIndexFrom(", []string{"if index := c.columnIndex.Load(); index != nil {", "return index, nil", "if !c.columnIndex.CompareAndSwap(nil, index) {", "return c.columnIndex.Load(), nil", "return index, nil"}},
-		{"file.go", "func (c *FileColumnChunk) readOffsetIndex(", []string{"if index := c.offsetIndex.Load(); index != nil {", "return index, nil", "if !c.offsetIndex.CompareAndSwap(nil, index) {", "return c.offsetIndex.Load(), nil", "return index, nil"}},
-		{"file.go", "func (c *FileColumnChunk) readBloomFilter(", []string{"if filter := c.bloomFilter.Load(); filter != nil {", "return filter, nil", "if !c.bloomFilter.CompareAndSwap(nil, filter) {", "return c.bloomFilter.Load(), nil", "return filter, nil"}},
-		{"writer.go", "func (rg *ConcurrentRowGroupWriter) Commit()", []string{"rg.writer.flush()", "return rg.writer.writeRowGroup(rg, nil, nil)"}},
-		{"writer.go", "func (w *writer) writeRowGroup(", []string{"rowGroupIndex := len(w.rowGroups)", "rg.reset()", "fileOffset := w.writer.offset", "dataPageOffset := w.writer.offset", "c.offsetIndex.PageLocations[j].Offset += dataPageOffset", "io.Copy(&w.writer, c.pageBuffer)"}},
+		{"page.go", "func AsyncPages(", []string{"read := make(chan asyncPage)", "seek := make(chan asyncSeek, 1)", "init := make(chan struct{})", "done := make(chan struct{})", "go readPages(pages, read, seek, init, done)"}, nil},
+		{"page.go", "func (pages *asyncPages) Close()", []string{"close(pages.init)", "close(pages.done)", "for p := range pages.read {", "Release(p.page)", "err = p.err", "pages.seek = nil"}, nil},
+		{"page.go", "func (pages *asyncPages) ReadPage()", []string{"pages.start()", "p, ok := <-pages.read", "if !ok {", "return nil, io.EOF", "if p.version == pages.version {", "return p.page, p.err", "Release(p.page)"}, nil},
+		{"page.go", "func (pages *asyncPages) SeekToRow(", []string{"if pages.seek == nil {", "return io.ErrClosedPipe", "select {", "case <-pages.seek:", "default:", "pages.version++", "pages.seek <- asyncSeek{rowIndex: rowIndex, version: pages.version}", "pages.start()"}, nil},
+		{"page.go", "func readPages(", []string{"read <- asyncPage{err: pages.Close(), version: -1}", "close(read)", "case <-init:", "case <-done:", "return", "var seekTo asyncSeek", "case seekTo = <-seek:", "default:", "seekTo.rowIndex = -1", "var err error", "for {", "if !isFatalError(err) {", "if seekTo.rowIndex >= 0 {", "err = pages.SeekToRow(seekTo.rowIndex)", "if err == nil {", "seekTo.rowIndex = -1", "continue", "page, err = pages.ReadPage()", "case read <- asyncPage{", "version: seekTo.version,", "case seekTo = <-seek:", "Release(page)", "case <-done:", "Release(page)", "return"}, nil},
+		{"page.go", "func isFatalError(", []string{"err != nil && err != io.EOF && !errors.Is(err, ErrSeekOutOfRange)"}, nil},
+		{"file.go", "func (c *FileColumnChunk) readColumnIndexFrom(", []string{"if index := c.columnIndex.Load(); index != nil {", "return index, nil", "if !c.columnIndex.CompareAndSwap(nil, index) {", "return c.columnIndex.Load(), nil", "return index, nil"}, nil},
+		{"file.go", "func (c *FileColumnChunk) readOffsetIndex(", []string{"if index := c.offsetIndex.Load(); index != nil {", "return index, nil", "if !c.offsetIndex.CompareAndSwap(nil, index) {", "return c.offsetIndex.Load(), nil", "return index, nil"}, nil},
+		{"file.go", "func (c *FileColumnChunk) readBloomFilter(", []string{"if filter := c.bloomFilter.Load(); filter != nil {", "return filter, nil", "if !c.bloomFilter.CompareAndSwap(nil, filter) {", "return c.bloomFilter.Load(), nil", "return filter, nil"}, nil},
+		// pool protocol (PqModel.PoolProto): get, touches, put as the last action, nothing deferred after it
+		{"internal/memory/pool.go", "func (p *Pool[T]) Get(", []string{"v, _ := p.pool.Get().(*T)", "if v == nil {", "v = newT()", "resetT(v)", "return v"}, nil},
+		{"internal/memory/pool.go", "func (p *Pool[T]) Put(", []string{"p.pool.Put(v)"}, nil},
+		{"compress/compress.go", "func (c *Compressor) Encode(", []string{"w := c.writers.Get(", "defer func() {", "w.output = *bytes.NewBuffer(nil)", "w.writer.Reset(io.Discard)", "c.writers.Put(w)", "}()", "w.writer.Write(src)", "w.writer.Close()", "return w.output.Bytes(), nil"},
+			map[string]int{"\tdefer ": 1, "c.writers.Put(w)": 1}},
+		{"compress/compress.go", "func (d *Decompressor) Decode(", []string{"r := d.readers.Get(", "if initErr != nil {", "return dst[:0], initErr", "defer func() {", "r.input.Reset(nil)", "if err != nil {", "return", "r.reader.Reset(nil); resetErr == nil {", "d.readers.Put(r)", "}()", "r.reader.Read(dst[len(dst):cap(dst)])"},
+			map[string]int{"\tdefer ": 1, "d.readers.Put(r)": 1}},
+		{"schema.go", "func (s *Schema) Reconstruct(", []string{"b := acquireValuesSliceBuffer()", "columns := b.reserve(len(state.columns))", "row.Range(func(", "columns[columnIndex] = columnValues", "err := funcs.reconstruct(v, columnLevels{}, columns)", "b.release()", "return err"},
+			map[string]int{"\tdefer ": 0, "b.release()": 1, "funcs.reconstruct(": 1}},
+		{"schema.go", "func (v *valuesSliceBuffer) release()", []string{"valuesSliceBufferPool.Put(v)"}, nil},
+		{"schema.go", "func acquireValuesSliceBuffer()", []string{"return valuesSliceBufferPool.Get("}, nil},
+		{"writer.go", "func (rg *ConcurrentRowGroupWriter) Commit()", []string{"rg.writer.flush()", "return rg.writer.writeRowGroup(rg, nil, nil)"}, nil},
+		{"writer.go", "func (w *writer) writeRowGroup(", []string{"rowGroupIndex := len(w.rowGroups)", "rg.reset()", "fileOffset := w.writer.offset", "dataPageOffset := w.writer.offset", "c.offsetIndex.PageLocations[j].Offset += dataPageOffset", "io.Copy(&w.writer, c.pageBuffer)"}, nil},
+	}
+	poolNote := func(file string) string {
+		if file == "compress/compress.go" || file == "schema.go" || file == "internal/memory/pool.go" {
+			return " — pool protocol: Props.C15.pool_exclusive needs the put to be the owner's last action on the object; for a put before the last use Props.C15.pool_slip_encode_not_exclusive / pool_slip_reconstruct_not_exclusive prove that two goroutines may touch the same object"
+		}
+		return ""
 	}
 	cache := map[string]string{}
 	for _, f := range fns {
@@ -617,12 +635,29 @@ func c15Anchors(ctx *core.Ctx) {
 			i := strings.Index(body[pos:], a)
 			ctx.Hist("mirror_anchor", f.file)
 			if i < 0 {
-				ctx.Fail("L2", "mirror-anchor-missing "+f.file, "statement the Lean mirror transliterates is gone or moved: `"+a+"` in "+f.start,
+				ctx.Fail("L2", "mirror-anchor-missing "+f.file, "statement the Lean mirror transliterates is gone or moved: `"+a+"` in "+f.start+poolNote(f.file),
 					map[string]any{"file": f.file, "function": f.start, "statement": a})
 				break
 			}
 			pos += i + len(a)
 		}
+		for stmt, want := range f.counts {
+			if got := strings.Count(body, stmt); got != want {
+				ctx.Fail("L2", "mirror-anchor-missing "+f.file, fmt.Sprintf("`%s` occurs %d times in %s, the Lean mirror assumes %d%s", stmt, got, f.start, want, poolNote(f.file)),
+					map[string]any{"file": f.file, "function": f.start, "statement": stmt, "occurrences": got, "assumed": want})
+			}
+		}
+	}
+	// the page.go:NNN references in the doc comments of PqModel/Async.lean (information only)
+	if src, ok := cache["page.go"]; ok {
+		lines := strings.Split(src, "\n")
+		state := "current"
+		for n, text := range map[int]string{203: "if p.version == pages.version {", 240: "pages.seek <- asyncSeek{", 294: "if !isFatalError(err) {", 309: "case read <- asyncPage{", 315: "case seekTo = <-seek:"} {
+			if n > len(lines) || !strings.Contains(lines[n-1], text) {
+				state = "stale"
+			}
+		}
+		ctx.Hist("page_go_line_refs_in_Async_lean", state)
 	}
 }
 
